@@ -6,12 +6,14 @@ namespace RL
 /-- every answer of the service loop belongs to a request of the queue and has its cause in the state the loop sees -/
 theorem service_answer_cause (cap : Nat → Nat) (chain : Nat → List Nat) (closed : Nat → Bool) (p : Nat)
     (used : Nat → Nat) (w : List Req) (id : Nat) (a : Ans) (h : (id, a) ∈ (service cap chain closed p used w).answers) :
-    ∃ r ∈ w, r.id = id ∧ (a = .ok ∨ (a = .errClosed ∧ closed r.lim = true) ∨
+    ∃ r ∈ w, r.id = id ∧ ((a = .ok ∧ closed r.lim = false ∧ r.amt ≤ effCap cap (chain r.lim) (cap r.lim)) ∨
+      (a = .errClosed ∧ closed r.lim = true) ∨
       (a = .errCap ∧ closed r.lim = false ∧ r.amt > effCap cap (chain r.lim) (cap r.lim))) := by
   induction w generalizing used with
   | nil => simp [service] at h
   | cons r rs ih =>
-    have lift : ∀ u, (id, a) ∈ (service cap chain closed p u rs).answers → ∃ r' ∈ r :: rs, r'.id = id ∧ (a = .ok ∨
+    have lift : ∀ u, (id, a) ∈ (service cap chain closed p u rs).answers → ∃ r' ∈ r :: rs, r'.id = id ∧
+        ((a = .ok ∧ closed r'.lim = false ∧ r'.amt ≤ effCap cap (chain r'.lim) (cap r'.lim)) ∨
         (a = .errClosed ∧ closed r'.lim = true) ∨
         (a = .errCap ∧ closed r'.lim = false ∧ r'.amt > effCap cap (chain r'.lim) (cap r'.lim))) := by
       intro u hu
@@ -32,10 +34,11 @@ theorem service_answer_cause (cap : Nat → Nat) (chain : Nat → List Nat) (clo
         · obtain ⟨e1, e2⟩ := Prod.mk.inj e
           exact ⟨r, List.mem_cons_self, e1.symm, Or.inr (Or.inr ⟨e2, hc, hb⟩)⟩
         · exact lift used e
-      · split at h
+      · rename_i hb
+        split at h
         · rcases List.mem_cons.mp h with e | e
           · obtain ⟨e1, e2⟩ := Prod.mk.inj e
-            exact ⟨r, List.mem_cons_self, e1.symm, Or.inl e2⟩
+            exact ⟨r, List.mem_cons_self, e1.symm, Or.inl ⟨e2, hc, by omega⟩⟩
           · exact lift _ e
         · exact lift used h
 
@@ -68,7 +71,8 @@ theorem queued_not_answered {c : Nat} {s : S} (h : Reachable c s) (r : Req) (hr 
     its amount above the smallest capacity then in force along its chain -/
 theorem queued_answer_cause {c : Nat} {s s' : S} (h : Reachable c s) (st : Step s s') (r : Req) (hr : r ∈ s.waiting)
     (a : Ans) (ha : (r.id, a) ∈ s'.answered) :
-    a = .ok ∨ (a = .errClosed ∧ s.closed r.lim = true) ∨
+    (a = .ok ∧ s.closed r.lim = false ∧ r.amt ≤ effCap s.cap (s.chain r.lim) (s.cap r.lim)) ∨
+    (a = .errClosed ∧ s.closed r.lim = true) ∨
     (a = .errCap ∧ s.closed r.lim = false ∧ r.amt > effCap s.cap (s.chain r.lim) (s.cap r.lim)) := by
   have notin := queued_not_answered h r hr a
   have fresh : ∀ x, (r.id, a) ∈ (s.nextReq, x) :: s.answered → False := by
@@ -181,5 +185,24 @@ theorem guarded_change {s s' : S} (st : Step s s') :
   | drainLock => exact Or.inl ⟨rfl, rfl, rfl, rfl, rfl, rfl, rfl, rfl⟩
   | drain h1 h0 => exact Or.inr (Or.inl ⟨h0, Or.inr h1⟩)
   | drainUnlock => exact Or.inl ⟨rfl, rfl, rfl, rfl, rfl, rfl, rfl, rfl⟩
+
+/-- a limiter is no longer reached by `root.reset()` iff it or one of its ancestors was unlinked by its own `Close` -/
+theorem resets_false_iff (s : S) (x : Nat) : resets s x = false ↔ ∃ y ∈ s.chain x, s.unlinked y = true := by
+  simp [resets, List.all_eq_false]
+
+/-- the effective cap is attained: it is the own capacity or the capacity of a limiter of the chain -/
+theorem effCap_attained (cap : Nat → Nat) (ch : List Nat) (own : Nat) :
+    effCap cap ch own = own ∨ ∃ x ∈ ch, effCap cap ch own = cap x := by
+  unfold effCap
+  induction ch generalizing own with
+  | nil => exact Or.inl rfl
+  | cons y ys ih =>
+    simp only [List.foldl_cons]
+    rcases ih (min own (cap y)) with h | ⟨x, hx, h⟩
+    · rw [h]
+      rcases Nat.le_total own (cap y) with h' | h'
+      · exact Or.inl (Nat.min_eq_left h')
+      · exact Or.inr ⟨y, List.mem_cons_self, Nat.min_eq_right h'⟩
+    · exact Or.inr ⟨x, List.mem_cons_of_mem _ hx, h⟩
 
 end RL
